@@ -66,6 +66,14 @@ func c05RefF(h *[8]uint64, m *[16]uint64, t0, t1 uint64, final bool, rounds uint
 	}
 }
 
+func c05FStop(r *mc.R) bool {
+	if r.Violations() > 40 {
+		r.NotExhaustive("stopped early after more than 40 violations")
+		return true
+	}
+	return false
+}
+
 type c05FCase struct {
 	Op     string `json:"op"`
 	Rounds uint64 `json:"rounds"`
@@ -204,7 +212,7 @@ func TestVerif_C05_Blake2bF(t *testing.T) {
 
 		// 1. direct calls (parallel; no shared state)
 		r.Parallel(len(jobs), func(i int) {
-			if r.Violations() > 40 {
+			if c05FStop(r) {
 				return
 			}
 			j := jobs[i]
@@ -251,7 +259,7 @@ func TestVerif_C05_Blake2bF(t *testing.T) {
 		for _, rw := range rows {
 			useAVX2, useAVX, useSSE4 = rw.avx2, rw.avx, rw.sse4
 			for _, j := range jobs {
-				if j.rounds > 1<<16+3 || r.Violations() > 40 {
+				if j.rounds > 1<<16+3 || c05FStop(r) {
 					continue
 				}
 				if r.Expired() {
